@@ -392,7 +392,16 @@ func checkC14(c *Ctx) {
 			o.Set("y", avInt(2))
 		}
 		m := o.GoMap()
-		ob := evalFresh(s, m)
+		// a third of the cases: Process on an evaluator that has already processed other objects (some of them failing) -
+		// still "NewEvaluator followed by Process"; the one-shot entry points must agree with it all the same
+		var before []map[string]interface{}
+		if i >= len(corpusTexts) && c.R.Chance(1, 3) {
+			for k := 0; k < 1+c.R.Intn(2); k++ {
+				before = append(before, c.zooObject(t).GoMap())
+			}
+			c.count("process_on_a_used_evaluator")
+		}
+		ob := evalOn(s, m, before)
 		rv, re, resc := rulesEvaluate(s, m)
 		pv, pesc := parserEvaluate(s, m)
 		c.Res.Evaluations++
